@@ -307,7 +307,11 @@ static void the_call(void)
 	CALL(r = event_del_noblock(&E));
 	VP_WITNESS("event_del_noblock returned");
 #elif C08_OP == OP_ACTIVE
+#if C08_KIND == K_SIG
+	CALL(event_active(&E, vp_int(), (short)vp_range(0, 3)));   /* (a signal event's callback runs ncalls times: loop bound) */
+#else
 	CALL(event_active(&E, vp_int(), (short)vp_u16()));
+#endif
 	VP_WITNESS("event_active returned");
 #elif C08_OP == OP_ASSIGN
 	{
